@@ -27,6 +27,8 @@ Domain : configuration (Colang 1.0 / 2.x, 1-4 input rails drawn in order from th
          (rails of one kind share ONE verdict variable, as the shipped rails do: `$allowed` / `$vf_checked`).
          x (Colang 1.0) OTHER conversations served by the same LLMRails instance between two turns of the conversation: 0 / 1-3 /
          70-200 generate calls (one turn each, texts of their own).
+         x (Colang 1.0) the rewrite KIND: a new marker text / an exact `$name` / a case or whitespace NORMALISATION of the text the
+         rail was given (upper, lower, squeeze runs of spaces, trim): original and product are told apart by exact spelling only.
 Oracle : reference model of the input chain (vf.pipeline.model_input) checked on three observation channels:
          (a) trace of rail-action invocations (order, text seen), (b) prompt log of the scripted LLM,
          (c) the value returned by generate.
@@ -94,7 +96,13 @@ RULE = (
     "through the same API, each an unrelated conversation of one turn with a text of its own (`OC{t}N{n}Z hello there`, every rail accepts, predefined-answer route) and a session of its own; a third of the conversations of >= 3 turns get 1-3 more before another turn. "
     "A conversation with 70+ of them is given a rewriting rail, general mode 3 in 4, and (2 in 3) a turn before them whose text that rail rewrites. The oracle is unchanged: the prompts of every later turn must not show the original of a text an input rail rewrote in an earlier turn "
     "(labels other-conversations-on-the-instance-before-this-turn=0|1-3|70+, few-/many-other-conversations-between-a-rewritten-turn-and-this-turn). "
-    "Enumerated families: (first, so that a cut wall budget keeps them) other conversations between two turns: 70 / 0 / 1 / 200 of them x general / dialog / passthrough+dialog x which rail rewrites (turn 1 rewritten, the others, turn 2 accepted, one more, turn 3 rewritten by the other rail, turn 4 rejected); "
+    "One Colang 1.0 conversation in four (sequential leg; no exact `$name` texts there) uses the rewrite KIND 'CASE / WHITESPACE NORMALISATION OF THE USER'S OWN TEXT': the configuration gets a rewriting rail (rewrite / block-or-rewrite) and no shipped rail, "
+    "general mode - no dialog rails, not passthrough - 2 in 3, the drawn mode (dialog / passthrough) otherwise as control; 2 in 3 of its turns send a tame text (mixed-case words, runs of 1-3 spaces around the marker, 0 / 2-3 spaces at either end) and give every rewriting rail an operation "
+    "(upper 1 in 6, lower 2, squeeze = runs of white space to one space and none at the ends 2, trim 1), 2 in 3 of those force one rewriting rail to rewrite with no rejecting rail before it. A rail that rewrites such a turn hands back the text IT WAS GIVEN with the operation applied - no new marker: "
+    "product and original differ only by letter case or white space, so the reference model carries the EXACT spellings (user text for UM{t}Z, the product of rail i for RWI{i}U{t}Z) and every clause of the unchanged oracle compares exact spellings: each rail is given exactly the text the chain says, "
+    "no prompt of the turn shows the original spelling once it differs from the final one (check 4), no prompt of a later turn does (check 5), the last message of a passthrough message list IS the final text; presence of the final text in a prompt is asserted up to outer white space "
+    "(labels rewrite-kind=normalisation-of-the-users-own-text, normalisation=upper|lower|squeeze|trim, normalised-text-differs-by=case|whitespace|case+whitespace|outer-whitespace-only|nothing, normalised-text-reached-a-prompt, prompts-of-a-later-turn-after-a-rail-normalised-the-text-of-turn). "
+    "Enumerated families: (first, so that a cut wall budget keeps them) the normalisation kind: operation (lower / upper / squeeze / trim) x general / dialog / passthrough+dialog+exceptions / general+output rail+retrieval: turn 1 normalised by the first rewriting rail, turn 2 by the other one with another operation, turn 3 accepted as sent, turn 4 the text of turn 1 again normalised by both, turn 5 rejected; other conversations between two turns: 70 / 0 / 1 / 200 of them x general / dialog / passthrough+dialog x which rail rewrites (turn 1 rewritten, the others, turn 2 accepted, one more, turn 3 rewritten by the other rail, turn 4 rejected); "
     "'not allowed' result None / 0 / \"\" / False x six rail chains (check+check, check alone, both+both, shipped+check, check+both+check, rewrite+check+shipped) x refusal / rail exception: accepted, rejected by the last rail, by the first, accepted, same text rejected again; the waiting form: pattern shape x rail style x refusal/exception x who waits with the pattern (a listener next to a main flow that waits for one literal text: every message heard by one flow / the main flow next to an any-utterance listener / a listener next to the main flow that takes anything), both spellings, "
     "the matching text accepted, sent again and rejected by the last rail, another turn rejected by the first rail; every reference name x four v1 and three v2 configurations; input-off spelling x later options x position of the input-off call; "
     "every exception event type x two v1 and two v2 configurations with each rail rejecting once; listener action x awaited text x rail style x refusal/exception (one or two listeners, main flow waiting for anything / one text); "
@@ -103,6 +111,7 @@ RULE = (
     "Non-trivial = at least 2 input rails and (a reject after an accepting/rewriting rail, or a rewrite followed by a later "
     "rail) in some turn, or a reject in a turn >= 2, or an exact `$name` user text in a turn >= 2, or a judged call after a call that switched the input rails off, "
     "or a turn >= 2 that follows other conversations on the instance and a turn whose text was rewritten, "
+    "or a turn whose text a normalising rail changed (final spelling != original) that made an LLM call, or a later turn with an LLM call after such a turn, "
     "or a turn heard by flows in >= 2 interaction loops with >= 2 rails or a reject, or a turn heard by a flow that waits with a pattern with >= 2 rails or a reject, or a call with two user messages and >= 2 rails or a reject; "
     "concurrent leg: a rail invocation or LLM call of ANOTHER conversation ran between two consecutive steps (rail, rail) or (last rail, first generation call) of a turn's input chain; distinct by the whole case."
 )
@@ -127,6 +136,8 @@ ASSUMPTIONS = [
     "a generated rail flow tests its verdict variable for truth (`if not $allowed`, the shipped rails' shape), so every falsy action result - False, None, 0, the empty string - is a rejection; a rail action that returns None is an action without a return statement on the 'not allowed' path",
     "one LLMRails instance serves many conversations (the server keeps one per configuration): the calls made between two turns of the conversation under test are sequential, carry other texts, no generation options, and are not judged themselves; the conversation under test passes its own history back unchanged, so the library still recognises it however many other conversations it served meanwhile (no documented limit on their number)",
     "a turn that needs more than 100 internal events makes the Colang 1.0 runtime raise `Too many events.` (safety limit); such cases (many rails + long routes) are counted as skipped, not judged",
+    "rewrite kind 'normalisation of the user's own text' (Colang 1.0): the texts are tame (letters, digits, hyphens, spaces), so that a prompt template has no reason to escape them and exact spellings can be compared; outer white space of the original is '' or 2-3 spaces, so that a template's own single space before the trimmed text never spells the untrimmed one; "
+    "a rail whose operation leaves the text as it was counts as not having rewritten it; the shipped `self check input` rail is not combined with this kind (how its prompt spells the text is not asserted); whether a prompt keeps the outer white space of the FINAL text is not asserted",
     "two messages in one call (Colang 2.x): when an output rail of that turn does not accept, the refusal an input rail utters for a rejected message is itself judged by the output rails (and a parallel bot message meets the open finding C02-F23); what the reply then holds is not asserted by C01 (label two-utterances:refusal-not-judged...), the rail-chain, order and no-LLM-call clauses still are",
 ]
 
@@ -260,7 +271,8 @@ def _ext_build(cfg, co, y):
     cfg["listeners"] = [{"loop", "on", "do"}, ...] (Colang 2.x, dialog False/True); cfg["main_on"] = {"text": literal}."""
     word = "create event" if cfg["v"] == 1 else "send"
     for i, typ in enumerate(cfg.get("in_exc") or []):
-        if typ is None or typ == EXC_DEFAULT:
+        if typ is None or typ == EXC_DEFAULT or cfg["in"][i] == "rewrite":
+            # (a pure rewriting rail never rejects: it raises no rail exception whose type could be changed)
             continue
         old = f'{word} {EXC_DEFAULT}(message="{block_message("in", i, cfg["in"][i])}")'
         if co.count(old) != 1:
@@ -486,8 +498,20 @@ def _case(draw):
         if any(x not in (None, EXC_DEFAULT) for x in types):
             cfg["in_exc"] = types
             cfg["ext"] = "c01"
+    # dimension (Colang 1.0): the rewrite KIND "case / whitespace normalisation of the user's own text" (1 conversation in 4):
+    # a rewriting rail is there, no shipped rail (its prompt is not asserted to spell the text exactly), general mode 2 in 3
+    norm_conv = v == 1 and draw(st.sampled_from([False, False, False, True]))
+    if norm_conv:
+        cfg["in"] = ["check" if k == "self" else k for k in cfg["in"]]
+        if not any(k in ("rewrite", "both") for k in cfg["in"]):
+            cfg["in"][draw(st.integers(0, n_in - 1))] = draw(st.sampled_from(["rewrite", "both"]))
+        if draw(st.sampled_from([True, True, False])):
+            cfg["dialog"] = False
+            cfg.pop("passthrough", None)
     routes = pipeline.routes_for(cfg)
     n_turns = draw(st.sampled_from([1, 2, 2, 3, 3, 4]))
+    if norm_conv:
+        n_turns = max(n_turns, draw(st.sampled_from([1, 2, 2])))
     # dimension (Colang 2.x): one or two more flows, in interaction loops of their own, wait for the user utterance as well
     said = {}  # turn -> the literal text a listener waits for
     burst_t = draw(st.integers(0, n_turns - 1)) if burst else None
@@ -541,7 +565,7 @@ def _case(draw):
                 cfg["listeners"][f - 1]["on"] = on
     # dimension: exact variable references (a third of the conversations); the names are used in the drawn order
     # (not when the turns are dealt out to flows that wait with patterns: such a text has no marker, nobody would hear it)
-    refs = draw(st.permutations(ref_names(v))) if draw(st.sampled_from([False, False, True])) and not shared else None
+    refs = draw(st.permutations(ref_names(v))) if draw(st.sampled_from([False, False, True])) and not shared and not norm_conv else None
     used = [0]
 
     def next_ref():
@@ -576,6 +600,21 @@ def _case(draw):
                 rw = [next_ref() if fakes.eff(k, w) == "rewrite" and draw(st.booleans()) else None for k, w in zip(cfg["in"], turn["in"])]
                 if any(rw):
                     turn["rw_ref"] = rw
+        if norm_conv and draw(st.sampled_from([True, True, False])):
+            # a turn of the normalisation kind: a tame text in mixed case with runs of spaces (around the marker of the turn); every
+            # rewriting rail gets an operation; 2 in 3: one of them does rewrite and no rail before it rejects
+            turn["user"] = mk_norm_text(
+                t,
+                draw(st.lists(st.sampled_from(NORM_WORDS), min_size=0, max_size=3)),
+                draw(st.lists(st.sampled_from(NORM_WORDS), min_size=1, max_size=3)),
+                draw(st.lists(st.sampled_from(NORM_GAPS), min_size=1, max_size=3)),
+                draw(st.sampled_from(NORM_ENDS)),
+                draw(st.sampled_from(NORM_ENDS)),
+            )
+            turn["norm"] = [draw(st.sampled_from(NORM_NAMES)) if k in ("rewrite", "both") else None for k in cfg["in"]]
+            if draw(st.sampled_from([True, True, False])):
+                i = draw(st.sampled_from([i for i, k in enumerate(cfg["in"]) if k in ("rewrite", "both")]))
+                turn["in"] = ["accept" if w == "reject" else w for w in turn["in"][:i]] + ["rewrite"] + turn["in"][i + 1:]
         if t in said:
             # the text one of the listeners waits for (plain words around the marker of the turn)
             turn["user"] = said[t]
@@ -587,6 +626,12 @@ def _case(draw):
                 turn["user"] = turns[s]["user"]
                 turn["umark"] = turns[s].get("umark", s)
                 turn.pop("ref", None)
+                if turn.get("norm") and not turns[s].get("norm"):
+                    turn.pop("norm")  # (exact spellings are asserted for tame texts only)
+                elif turns[s].get("norm") and not turn.get("norm"):
+                    # the text of a normalisation turn again: its normalised spelling (same marker) may be in the history, so this
+                    # turn is judged by exact spellings as well - its rewriting rails normalise, too
+                    turn["norm"] = list(turns[s]["norm"])
                 if turns[s].get("ref"):
                     turn["ref"] = True
         if v == 1 and t >= 2 and draw(st.sampled_from([False, False, True])):
@@ -631,6 +676,32 @@ def enumerate_cases(tier):
     # Colang 1.0, OTHER conversations served by the same instance between two turns (0 / 1 / 70 / 200 of them) x mode (general /
     # dialog / passthrough+dialog) x which rail rewrites: turn 1 rewritten, the other conversations, turn 2 accepted, turn 3
     # rewritten by the other rewriting rail after one more foreign call, turn 4 rejected
+    # Colang 1.0, the rewrite kind "normalisation of the user's own text": operation x mode (general / dialog / passthrough+dialog /
+    # general with an output rail) - turn 1 normalised by the first rewriting rail, turn 2 by the other one with the next
+    # operation, turn 3 accepted as it is, turn 4 the text of turn 1 again, normalised by both, turn 5 rejected
+    ops = ["lower", "upper", "squeeze", "trim"]
+    for a, op in enumerate(ops):
+        for b, cfg in enumerate((
+            {"v": 1, "in": ["rewrite", "check", "both"], "out": [], "dialog": False, "exc": False, "ret": 0},
+            {"v": 1, "in": ["check", "both", "rewrite"], "out": [], "dialog": True, "exc": False, "ret": 0},
+            {"v": 1, "in": ["both", "rewrite", "check"], "out": [], "dialog": True, "exc": True, "ret": 0, "passthrough": True},
+            {"v": 1, "in": ["check", "rewrite", "both"], "out": ["check"], "dialog": False, "exc": True, "ret": 1},
+        )):
+            rw = [i for i, kind in enumerate(cfg["in"]) if kind in ("rewrite", "both")]
+            n_out = len(cfg["out"])
+            pat = lambda *on: [("rewrite" if i in on else "accept") for i in range(3)]  # noqa: E731
+            norm = lambda x, y: [(x if i == rw[0] else y if i == rw[1] else None) for i in range(3)]  # noqa: E731
+            op2 = ops[(a + 1 + b) % 4]
+            text0 = mk_norm_text(0, ["My", "Badge"], ["is", "QX-Secret-77"], ["  ", " ", "   "], ("", "  ")[b % 2] if op in ("squeeze", "trim") else "", "   " if op in ("squeeze", "trim") else "")
+            text1 = mk_norm_text(1, ["and"], ["What", "now"], [" ", "   "], "  " if op2 in ("squeeze", "trim") else "", "")
+            turns = [
+                {"user": text0, "route": "llm", "in": pat(rw[0]), "norm": norm(op, op2), "out": ["accept"] * n_out, "body": "first answer"},
+                {"user": text1, "route": ("llm", "predef", "pl")[(a + b) % 3], "in": pat(rw[1]), "norm": norm(op, op2), "out": ["accept"] * n_out, "body": "second answer"},
+                {"user": mk_norm_text(2, ["Tell"], ["me", "PLEASE"], ["  "], "", ""), "route": "llm", "in": pat(), "norm": norm(op, op2), "out": ["accept"] * n_out, "body": "third answer"},
+                {"user": text0, "umark": 0, "route": "llm", "in": pat(*rw), "norm": norm(op2, op), "out": ["accept"] * n_out, "body": "fourth answer"},
+                {"user": mk_norm_text(4, ["no"], ["never"], [" "], "", ""), "route": "llm", "in": ["accept"] * cfg["in"].index("check") + ["reject"] + ["accept"] * (2 - cfg["in"].index("check")), "out": ["accept"] * n_out, "body": "fifth answer"},
+            ]
+            yield {"config": cfg, "turns": turns, "api": ("sync", "async")[(a + b) % 2]}
     for a, n_other in enumerate((70, 0, 1, 200)):
         for b, cfg in enumerate((
             {"v": 1, "in": ["rewrite", "check", "both"], "out": [], "dialog": False, "exc": False, "ret": 0},
@@ -918,13 +989,41 @@ HOSTILE_TEXTS = [
 # ------------------------------------------------------------------------------------------------
 
 
+# Rewrite KIND "case / whitespace normalisation of the user's own text" (Colang 1.0): turn["norm"][i] = what rewriting rail i
+# does with the text it is given when its verdict is `rewrite` - no new marker text: the product differs from the original
+# ONLY by letter case or whitespace, so original and product are told apart by their EXACT spelling.
+NORM_OPS = {
+    "upper": lambda x: x.upper(),
+    "lower": lambda x: x.lower(),
+    "squeeze": lambda x: " ".join(x.split()),  # runs of white space -> one space, none at the ends
+    "trim": lambda x: x.strip(),
+}
+NORM_NAMES = ["upper", "lower", "lower", "squeeze", "squeeze", "trim"]
+NORM_WORDS = ["My", "Badge", "is", "QX-Secret-77", "What", "now", "Tell", "me", "PLEASE", "and"]
+NORM_GAPS = [" ", " ", "  ", "   "]
+NORM_ENDS = ["", "", "  ", "   "]  # (two or more: `User: ` + trimmed text never spells the untrimmed text)
+
+
+def mk_norm_text(t, before, after, gaps, lead, trail):
+    """Tame user text (letters, digits, hyphens, spaces) in mixed case with runs of spaces around the marker of turn t."""
+    words = list(before) + [fakes.mk_user(t)] + list(after)
+    out = words[0]
+    for k, w in enumerate(words[1:]):
+        out += gaps[k % len(gaps)] + w
+    return lead + out + trail
+
+
 class _Session(fakes.Session):
-    """Policy of the fakes for this check: a rewriting input rail may hand back an exact variable reference."""
+    """Policy of the fakes for this check: a rewriting input rail may hand back an exact variable reference, or the text it
+    was given in another letter case / with other white space."""
 
     def rewritten(self, cat, idx, turn, text):
         names = self.turns[turn].get("rw_ref") or []
         if cat == "in" and idx < len(names) and names[idx] is not None:
             return "$" + names[idx]
+        ops = self.turns[turn].get("norm") or []
+        if cat == "in" and idx < len(ops) and ops[idx] is not None and isinstance(text, str):
+            return NORM_OPS[ops[idx]](text)  # the user's own text (as this rail was given it), normalised
         return super().rewritten(cat, idx, turn, text)
 
     def rail_verdict(self, cat, idx, turn, text):
@@ -1277,9 +1376,19 @@ def _model(cfg, spec, t):
     for i, name in enumerate(spec.get("rw_ref") or []):
         if name is not None:
             sub[fakes.mk_rw_in(i, t)] = "$" + name
+    ops = spec.get("norm") or []
+    if any(ops):
+        # case / whitespace normalisation: the texts are their own markers, spelled exactly - the user text stands for `UM{t}Z`,
+        # what rail i makes of the text it is given for `RWI{i}U{t}Z`
+        cur = sub[m["orig"]] = spec["user"]
+        for i, c in enumerate(m["calls"]):
+            if c["verdict"] == "rewrite":
+                cur = sub[fakes.mk_rw_in(i, t)] = NORM_OPS[ops[i]](cur) if i < len(ops) and ops[i] else fakes.rw_in_text(i, t)
     f = lambda x: sub.get(x, x)  # noqa: E731
     calls = [{"rail": c["rail"], "sees": f(c["sees"]), "not": (f(c["not"]) if c["not"] and f(c["not"]) not in f(c["sees"]) else None), "verdict": c["verdict"]} for c in m["calls"]]
-    return {"calls": calls, "blocked": m["blocked"], "final": f(m["final"]), "orig": f(m["orig"]), "literal": set(sub.values())}
+    final = f(m["final"])
+    # "shown": what a prompt must show of the final text (a template may put it at the end of a line: outer white space is not asserted)
+    return {"calls": calls, "blocked": m["blocked"], "final": final, "orig": f(m["orig"]), "literal": set(sub.values()), "shown": final.strip() if any(ops) else final, "norm": any(ops)}
 
 
 def _merged_chain_problem(calls, entries, what):
@@ -1317,8 +1426,10 @@ def _ambiguous_literals(case, config=None):
             texts.update(str(y) for y in (vals if isinstance(vals, (list, tuple)) else [vals]))
     for t, spec in enumerate(case["turns"]):
         texts.add(spec["user"])
-        if spec.get("ref"):
+        if spec.get("ref") or any(spec.get("norm") or []):
             lits.add(spec["user"])
+        if any(spec.get("norm") or []):
+            texts.update(x for x in _model(case["config"], spec, t)["literal"] if x != spec["user"])
         for i, name in enumerate(spec.get("rw_ref") or []):
             if name is not None:
                 texts.add("$" + name)
@@ -1358,6 +1469,7 @@ def _check(case, obs, t0=0):
         labels.append("passthrough" + ("+dialog" if cfg["dialog"] else ""))
     nt = False
     rewritten_before = []  # (turn, original marker) of earlier turns whose text was rewritten
+    norm_origs = set()  # ... the exact spellings of those a rail normalised (case / white space)
     dead_after = None
     raw_mode = bool(cfg.get("passthrough")) and not cfg["dialog"]  # the LLM is handed the caller's message list
     sent_plain, sent_any = set(), set()  # markers of texts that went through un-rewritten / that were sent at all
@@ -1396,6 +1508,20 @@ def _check(case, obs, t0=0):
             nt = nt or j >= 1
         if any(spec.get("rw_ref") or []):
             labels.append("rewrite-product=$variable")
+        if m["norm"]:
+            done = sorted({op for op, c in zip(spec["norm"], m["calls"]) if op and c["verdict"] == "rewrite"})
+            if done and m["blocked"] is None:
+                a, b = m["orig"], m["final"]
+                if a == b:
+                    diff = "nothing"
+                elif "".join(a.split()) == "".join(b.split()):
+                    diff = "outer-whitespace-only" if a.strip() == b.strip() else "whitespace"
+                else:
+                    diff = "case" if b in (a.upper(), a.lower()) else "case+whitespace"
+                labels += ["rewrite-kind=normalisation-of-the-users-own-text", "normalised-text-differs-by=" + diff] + ["normalisation=" + op for op in done]
+                if m["final"] != m["orig"] and any(c["task"] != "self_check_input" for c in o["llm"]):
+                    labels.append("normalised-text-reached-a-prompt")
+                    nt = True
         entries = [e for e in o["trace"] if e["cat"] == "in"]
         what = f"v{v} turn {t} (verdicts {spec['in']}" + (f", options {opts}" if opts is not None else "") + ")"
         loops = waiting(cfg, spec) if v == 2 else ["main"]  # interaction loops of the flows that wait for this text
@@ -1520,7 +1646,7 @@ def _check(case, obs, t0=0):
                             f"{what}: the {c['task']} prompt contains the pre-rewrite user text ({m['orig']}); rewritten text carries {m['final']}",
                             {"turn": t},
                         )
-                    if c["task"] in ("generate_user_intent", "generate_bot_message", "general", "self_check_output") and m["final"] not in str(c["prompt"]):
+                    if c["task"] in ("generate_user_intent", "generate_bot_message", "general", "self_check_output") and m["shown"] not in str(c["prompt"]):
                         raise Violation("user-text-missing-in-prompt", f"{what}: the {c['task']} prompt does not contain the current user text ({m['final']})", {"turn": t})
                     if c.get("messages"):
                         # the LLM input was a message list (passthrough): its last message is this turn's user message
@@ -1556,6 +1682,9 @@ def _check(case, obs, t0=0):
             for s, orig in rewritten_before if not varied else ():
                 if orig in sent_plain or orig == m["orig"] or orig in ambiguous:
                     continue  # (this turn carries the same text itself: check (4) and the chain check speak for it)
+                if orig in norm_origs and o["llm"]:
+                    labels.append("prompts-of-a-later-turn-after-a-rail-normalised-the-text-of-turn")
+                    nt = True
                 for c in o["llm"]:
                     if orig in str(c["prompt"]):
                         raise Violation(
@@ -1565,6 +1694,8 @@ def _check(case, obs, t0=0):
                         )
             if "rewrite" in verdicts:
                 rewritten_before.append((t, m["orig"]))
+                if m["norm"]:
+                    norm_origs.add(m["orig"])
         if spec.get("redo"):
             labels.append("turn-replaces-previous-turn")
             nt = nt or bool(rewritten_before)
